@@ -343,6 +343,10 @@ def run(ctx):
     r10 = ctx.rule('R10', 'cached publish spec objects are only extended '
                    'with content of their own scope', 'ownership/dataflow')
     shared_publish_specs(ctx, r10)
+    r12 = ctx.rule('R12', 'the final context is folded over ALL completed '
+                   'tasks: the batches partition the rows of the query '
+                   '(shared with C02)', 'PAIR (arithmetic shape)')
+    _sh.batches_cover_all_rows(ctx, r12)
     r11 = ctx.rule('R11', 'the on-clause that publishes is the one of the '
                    'completion state (success / error / skip)', 'DT')
     clause_by_state(ctx, r11)
